@@ -103,7 +103,9 @@ func runC16(p *eng.Prog, r *eng.Report, tier string) {
 	// ---- C16.1 tables -----------------------------------------------------------
 	escSet := ""
 	if o := pk.Types.Scope().Lookup("escape"); o != nil {
-		if cst, ok := o.(interface{ Val() interface{ ExactString() string } }); ok {
+		if cst, ok := o.(interface {
+			Val() interface{ ExactString() string }
+		}); ok {
 			_ = cst
 		}
 	}
